@@ -114,6 +114,58 @@ func (r *hlslRules) convBetter(from, a, b *Type) bool {
 	return hlslConvRank(from, a) < hlslConvRank(from, b)
 }
 
+// pickOverload: HLSL overload resolution as DXC implements it (SemaHLSL
+// ScoreFunction): every viable candidate gets a score that adds up the cost of
+// the conversion of each argument, the lowest score wins; equal best scores are
+// ambiguous.  (An exact match scores 0.)  A tie is reported as not modelled
+// rather than as invalid text: the cost table of the compilers is finer than
+// hlslConvRank.
+func (r *hlslRules) pickOverload(c *checker, x *Call, cands []candidate) (any, string) {
+	best, bestScore, tie := any(nil), -1, false
+	for _, cd := range cands {
+		if len(cd.params) != len(x.Args) {
+			continue
+		}
+		score, ok := 0, true
+		for i, a := range x.Args {
+			at := a.base().T
+			switch cd.dirs[i] {
+			case "in":
+				if !r.implicitConv(at, cd.params[i]) {
+					ok = false
+				}
+				score += hlslConvRank(at, cd.params[i])
+			case "out":
+				if !r.implicitConv(cd.params[i], at) {
+					ok = false
+				}
+				score += hlslConvRank(cd.params[i], at)
+			default:
+				if !r.implicitConv(at, cd.params[i]) || !r.implicitConv(cd.params[i], at) {
+					ok = false
+				}
+				score += hlslConvRank(at, cd.params[i])
+			}
+		}
+		if !ok {
+			continue
+		}
+		switch {
+		case bestScore < 0 || score < bestScore:
+			best, bestScore, tie = cd.ref, score, false
+		case score == bestScore:
+			tie = true
+		}
+	}
+	if best == nil {
+		return nil, "none"
+	}
+	if tie {
+		c.unsupported(x.Pos, "overload resolution of %s%s: two candidates with the same conversion cost", x.Name, hlslArgTypes(x.Args))
+	}
+	return best, ""
+}
+
 func (r *hlslRules) convertNode(c *checker, e Expr, t *Type) Expr {
 	b := e.base()
 	if !r.implicitConv(b.T, t) {
